@@ -5,7 +5,8 @@ MANIFEST = {
                  'engine) + trace monitors on generated pause/resume histories',
     'text': 'Theorems over Mistral.Engine, for every spec/world/event: pause_acknowledged; no_creation_while_paused '
             '(no task execution is created by any delivery or command other than resume while PAUSED); '
-            'paused_stays_paused. The model is tied to the real engine by the `core` stream: after EVERY event '
+            'paused_stays_paused. ENGINE COMMANDS (Mistral.Props.C11X over Mistral.Engine.stepX, Model/EngineX.lean: fail / succeed / pause / noop in on-clauses, dispatcher._process_commands / _rearrange_commands incl. the sort, the command BACKLOG, RunExistingTask commands; tied by the core stream whose programs carry engine commands): no_dispatch_into_completed (EVERY world, every event: in a completed workflow no task execution is created and the state does not change, ALSO NOT THROUGH THE BACKLOG - a backlog polled there is dropped), no_dispatch_into_completed_reachable, pause_command_saves_rest (the commands after a `pause` command are saved, nothing of them is created), backlog_untouched_while_paused (never lost), backlog_restored_once (when polled in a RUNNING workflow each saved task command is dispatched exactly once: one execution + one start request each, backlog empty afterwards), restored_join_is_plain (known finding: a join command restored from the backlog has lost wait / unique_key and starts at once as a plain task). '
+            'The model is tied to the real engine by the `core` stream: after EVERY event '
             '(message, post-commit operation, scheduler job, action result, pause/resume/stop) committed rows and '
             'pending deliveries of the real engine must equal the model. "SAME RESULT AFTER RESUME" IS A THEOREM of the '
             'engine model (Mistral.Props.C02Sem, see C02): the engine model refines the declarative semantics Mistral.Sem '
@@ -33,18 +34,22 @@ MANIFEST = {
             'skips running executions below a finished child: known finding, corpus/C10/tree_pause_skips.json); '
             'function-level dispatch_into_paused_creates_no_task, dispatch_list_into_paused_creates_no_task, '
             'complete_in_paused_creates_no_task; the propagation on concrete trees (pause root / leaf, resume root / leaf, '
-            'pause then cancel). pause_propagates / pause_acknowledged_tree / pause_only_pauses (ALL reachable trees: a '
-            'pause request on an unfinished execution does not raise and every execution reached through unfinished '
-            'sub-workflows at any depth is PAUSED in the same transaction, which creates no row and only moves '
-            'RUNNING to PAUSED; Lemmas/TreeProp). NOT proved for all trees: the calling task of each paused execution '
-            'is PAUSED; resume brings them back (decided by the tree stream and its monitors).',
+            'pause then cancel). pause_subtree / pause_acknowledged_tree / pause_only_pauses / pause_calling_task (ALL '
+            'reachable trees: a pause request on an unfinished execution does not raise; EVERY execution at or below it '
+            'that is not completed is PAUSED in the same transaction, which creates no row and only moves RUNNING to '
+            'PAUSED; the RUNNING plain calling task of each execution it pauses is PAUSED in the same transaction, for a '
+            'with-items calling task the update job is pending; Lemmas/TreeProp, Lemmas/TreeFollow; needs repo patch 23 '
+            'for executions below a finished child). resume_pauses_nothing / resume_acknowledged_tree (EVERY tree and state: a '
+            'resume request never raises, pauses nothing, and the resumed execution leaves PAUSED; Lemmas/TreeResume). NOT '
+            'proved for all trees: every PAUSED execution below the resumed one is resumed (decided by the tree stream and '
+            'its monitors).',
 }
 RULE = ('stream core: data-free single-activation programs x oracles x schedules x pause/resume/stop at random points, '
         'model vs real after every event; stream engine (mode pause): generated programs with data flow, pause and '
         'resume at random points, paired with the unpaused run; non-trivial = a join or an operator command in the '
         'trace; distinct = distinct (definition, oracle, schedule seed, commands); stream sem as in C02')
 TRUSTED = ['harness seams (post-commit thread, RPC client, executor, scheduler dispatcher) replaced by recorders']
-LEAN_MODULES = ['Mistral.Props.C10', 'Mistral.Props.C10Tree', 'Mistral.Props.C02Sem']
+LEAN_MODULES = ['Mistral.Props.C10', 'Mistral.Props.C11X', 'Mistral.Props.C10Tree', 'Mistral.Props.C02Sem']
 
 
 def correspond(ctx):
@@ -74,6 +79,12 @@ def search(ctx):
 
 
 def replay(ctx, rep):
+    if isinstance(rep.get('replay'), dict) and rep['replay'].get('stream') == 'core':
+        from harness import boot
+        boot.boot()
+        from harness import core_stream
+        core_stream.replay(ctx, rep)
+        return
     if isinstance(rep.get('replay'), dict) and rep['replay'].get('stream') == 'sem':
         from harness import sem_stream
         sem_stream.replay(ctx, rep)
